@@ -303,6 +303,10 @@ func asn1OctetString(ext *pkix.Extension, field string, size int) ([]byte, error
 
 func extractTcbExtension(tcbExtension []asn1.RawValue, tcb *PckCertTCB) error {
 	tcbComponents := make([]byte, tcbComponentSize)
+	// Every component, the PCE SVN and the CPU SVN must be present exactly once: a missing element
+	// must not be reported as a zero value and a repeated one must not silently win.
+	seenComponents := make([]bool, tcbComponentSize)
+	seenPceSvn, seenCPUSvn := false, false
 	for _, ext := range tcbExtension {
 		var tcbValue pkix.AttributeTypeAndValue
 		rest, err := asn1.Unmarshal(ext.FullBytes, &tcbValue)
@@ -320,6 +324,10 @@ func extractTcbExtension(tcbExtension []asn1.RawValue, tcb *PckCertTCB) error {
 				if err := asn1U8(&tcbValue, phrase, &val); err != nil {
 					return err
 				}
+				if seenComponents[i] {
+					return fmt.Errorf("%s is present more than once in the TCB extension", phrase)
+				}
+				seenComponents[i] = true
 				tcbComponents[i] = val
 				break
 			}
@@ -329,6 +337,10 @@ func extractTcbExtension(tcbExtension []asn1.RawValue, tcb *PckCertTCB) error {
 			if err := asn1U16(&tcbValue, "PCESvn", &tcb.PCESvn); err != nil {
 				return err
 			}
+			if seenPceSvn {
+				return errors.New("PCESvn is present more than once in the TCB extension")
+			}
+			seenPceSvn = true
 		}
 
 		if tcbValue.Type.Equal(OidCPUSvn) {
@@ -339,8 +351,23 @@ func extractTcbExtension(tcbExtension []asn1.RawValue, tcb *PckCertTCB) error {
 			if len(tcbValue.Value.([]byte)) != cpuSvnSize {
 				return fmt.Errorf("CPUSVN component in TCB extension is of size %d, expected %d", len(tcbValue.Value.([]byte)), cpuSvnSize)
 			}
+			if seenCPUSvn {
+				return errors.New("CPUSVN is present more than once in the TCB extension")
+			}
+			seenCPUSvn = true
 			tcb.CPUSvn = val
 		}
+	}
+	for i, seen := range seenComponents {
+		if !seen {
+			return fmt.Errorf("sgxTcbComponent%d is missing in the TCB extension", i+1)
+		}
+	}
+	if !seenPceSvn {
+		return errors.New("PCESvn is missing in the TCB extension")
+	}
+	if !seenCPUSvn {
+		return errors.New("CPUSVN is missing in the TCB extension")
 	}
 	tcb.CPUSvnComponents = tcbComponents
 	return nil
@@ -400,6 +427,7 @@ func extractSgxExtensions(extensions []asn1.RawValue) (*PckExtensions, error) {
 		return nil, fmt.Errorf("SGX Extension has length %d. It should have a minimum length of %d", len(extensions), sgxExtensionMinSize)
 	}
 
+	seenPPID, seenTCB, seenPCEID, seenFMSPC := false, false, false, false
 	for i, ext := range extensions {
 		var sExtension pkix.AttributeTypeAndValue
 		rest, err := asn1.Unmarshal(ext.FullBytes, &sExtension)
@@ -410,12 +438,20 @@ func extractSgxExtensions(extensions []asn1.RawValue) (*PckExtensions, error) {
 			return nil, ErrSgxExtInvalid
 		}
 		if sExtension.Type.Equal(OidPPID) {
+			if seenPPID {
+				return nil, fmt.Errorf("SGX extension %v is present more than once", OidPPID)
+			}
+			seenPPID = true
 			pckExtension.PPID, err = extractAsn1OctetStringExtension("PPID", extensions[i], ppidSize)
 			if err != nil {
 				return nil, err
 			}
 		}
 		if sExtension.Type.Equal(OidTCB) {
+			if seenTCB {
+				return nil, fmt.Errorf("SGX extension %v is present more than once", OidTCB)
+			}
+			seenTCB = true
 			tcb, err := extractAsn1SequenceTcbExtension(extensions[i])
 			if err != nil {
 				return nil, err
@@ -423,17 +459,28 @@ func extractSgxExtensions(extensions []asn1.RawValue) (*PckExtensions, error) {
 			pckExtension.TCB = *tcb
 		}
 		if sExtension.Type.Equal(OidPCEID) {
+			if seenPCEID {
+				return nil, fmt.Errorf("SGX extension %v is present more than once", OidPCEID)
+			}
+			seenPCEID = true
 			pckExtension.PCEID, err = extractAsn1OctetStringExtension("PCEID", extensions[i], pceIDSize)
 			if err != nil {
 				return nil, err
 			}
 		}
 		if sExtension.Type.Equal(OidFMSPC) {
+			if seenFMSPC {
+				return nil, fmt.Errorf("SGX extension %v is present more than once", OidFMSPC)
+			}
+			seenFMSPC = true
 			pckExtension.FMSPC, err = extractAsn1OctetStringExtension("FMSPC", extensions[i], fmspcSize)
 			if err != nil {
 				return nil, err
 			}
 		}
+	}
+	if !seenPPID || !seenTCB || !seenPCEID || !seenFMSPC {
+		return nil, errors.New("SGX extension is missing one of PPID, TCB, PCEID and FMSPC")
 	}
 	return pckExtension, nil
 }
